@@ -225,4 +225,12 @@ theorem evaluate_const_valC (lk : Bytes → Lookup) (isReg : Bytes → Bool) (ρ
     simp only [evaluate] at he
     cases h1 : evaluateArgs lk isReg as <;> simp [h1] at he
 
+/-- the environment a constant table denotes -/
+def envOf (lk : Bytes → Lookup) : Env := fun s => match lk s with | .found v => some v | _ => none
+
+theorem consistent_of_sub {lk lk' : Bytes → Lookup} (isReg : Bytes → Bool)
+    (h : ∀ s v, lk s = .found v → lk' s = .found v) : consistent lk isReg (envOf lk') := by
+  intro s v _ hs
+  simp [envOf, h s v hs]
+
 end Trion.Simp
